@@ -64,6 +64,16 @@ def enclosing(node, kinds):
     return p
 
 
+def ancestors(node, stop=None):
+    """Parents of `node`, innermost first, up to (not including) `stop`."""
+    out = []
+    p = parent(node)
+    while p is not None and p is not stop:
+        out.append(p)
+        p = parent(p)
+    return out
+
+
 def enclosing_stmt(node):
     p = node
     while p is not None and not isinstance(p, ast.stmt):
